@@ -10,9 +10,7 @@ namespace C10
 
 /-! ### weak mirror invariant (any number of processes) -/
 
-def MirrorWeak (mirror : List (Nat × Page)) (pt : List Page) : Prop :=
-  (∀ x ∈ mirror, x.2.vaddr = x.1) ∧
-  (∀ v pg, lookup mirror v = some pg → ∀ e ∈ pt, e.pid = pg.pid → e.vaddr = v → e.paddr = pg.paddr)
+-- `MirrorWeak` itself is defined in `C10Lemmas.lean` (the repaired Remap needs it to keep the physical invariant)
 
 theorem MirrorWeak.of_ok {s : State} (h : MirrorOK s) : MirrorWeak s.mirror s.pt := by
   refine ⟨h.2, ?_⟩
@@ -42,26 +40,6 @@ theorem MirrorWeak.push_insert {m : List (Nat × Page)} {pt : List Page} {pg : P
       rcases List.mem_append.mp he with he | he
       · exact h.2 v' pg' hl e he hp hv'
       · simp at he; subst he; exact absurd (hv.symm.trans hv') hvv
-
-theorem MirrorWeak.push_update {m : List (Nat × Page)} {pt : List Page} {pg : Page} {v : Nat}
-    (h : MirrorWeak m pt) (hv : pg.vaddr = v) : MirrorWeak ((v, pg) :: m) (pt.map (upd pg)) := by
-  refine ⟨?_, ?_⟩
-  · intro x hx
-    rcases List.mem_cons.mp hx with rfl | hx
-    · exact hv
-    · exact h.1 x hx
-  · intro v' pg' hl e he hp hv'
-    by_cases hvv : v = v'
-    · subst hvv
-      rw [lookup_cons_eq] at hl
-      injection hl with hl; subst hl
-      rcases mem_map_upd' he with rfl | ⟨_, hk⟩
-      · rfl
-      · exact absurd ⟨hp, hv'.trans hv.symm⟩ hk
-    · rw [lookup_cons_ne _ _ _ _ hvv] at hl
-      rcases mem_map_upd' he with rfl | ⟨he', _⟩
-      · exact absurd (hv.symm.trans hv') hvv
-      · exact h.2 v' pg' hl e he' hp hv'
 
 /-- an entry is rewritten keeping its physical page -/
 theorem MirrorWeak.rewrite {m : List (Nat × Page)} {pt : List Page} {pg : Page}
@@ -209,7 +187,7 @@ theorem allocatePages_ext {s s' : State} {n π d v : Nat} {u : Bool}
 
 theorem remapLoop_ext (π : Nat) (u : Bool) : ∀ (vs ps : List Nat) (s s' : State),
     MirrorWeak s.mirror s.pt → remapLoop π u vs ps s = .ok s' →
-    MirrorWeak s'.mirror s'.pt ∧ Frame s s' ∧ s'.pt.map key = s.pt.map key ∧ s'.pool = s.pool := by
+    MirrorWeak s'.mirror s'.pt ∧ Frame s s' ∧ s'.pt.map key = s.pt.map key ∧ s'.pool.nexts = s.pool.nexts := by
   intro vs
   induction vs with
   | nil => intro ps s s' hM h; simp [remapLoop] at h; subst h; exact ⟨hM, Frame.refl _, rfl, rfl⟩
@@ -225,12 +203,19 @@ theorem remapLoop_ext (π : Nat) (u : Bool) : ∀ (vs ps : List Nat) (s s' : Sta
         split at h
         · simp at h
         · rename_i pt' hu
-          obtain ⟨_, rfl⟩ := ptUpdate_ok hu
-          have hM1 : MirrorWeak ((v, mkPg π v p dev u) :: s.mirror) (s.pt.map (upd (mkPg π v p dev u))) :=
-            hM.push_update rfl
-          obtain ⟨a, b, c, e⟩ := ih ps _ s' hM1 h
-          exact ⟨a, ⟨b.ps, b.total, b.devs, b.ctxs, b.npid, b.cursors, b.npages, b.nexts⟩,
-            by rw [c]; exact map_upd_keys _ _, e⟩
+          split at h
+          · simp at h
+          · rename_i s1 hr
+            obtain ⟨_, rfl⟩ := ptUpdate_ok hu
+            have hM0 : MirrorWeak ((v, mkPg π v p dev u) :: s.mirror) (s.pt.map (upd (mkPg π v p dev u))) :=
+              hM.push_update rfl
+            rcases releaseReplaced_ok hr with ⟨_, _, _, _, _, rfl⟩ | ⟨_, rfl⟩
+            · obtain ⟨a, b, c, e⟩ := ih ps _ s' hM0 h
+              exact ⟨a, ⟨b.ps, b.total, b.devs, b.ctxs, b.npid, b.cursors, b.npages, b.nexts⟩,
+                by rw [c]; exact map_upd_keys _ _, e⟩
+            · obtain ⟨a, b, c, e⟩ := ih ps _ s' hM0 h
+              exact ⟨a, ⟨b.ps, b.total, b.devs, b.ctxs, b.npid, b.cursors, b.npages, b.nexts⟩,
+                by rw [c]; exact map_upd_keys _ _, e⟩
 
 theorem remap_ext {s s' : State} {π addr bytes d : Nat}
     (hM : MirrorWeak s.mirror s.pt) (h : remap s π addr bytes d = .ok s') :
